@@ -210,7 +210,16 @@ def run(chk: Check, repo: Repo) -> None:
             ok, why = (pack_ok(ie, o.detail, plen) if isinstance(o.detail, tuple) and o.detail[0] == "pack" else (False, f"returns {o.detail!r}"))
             chk.ob("in-range-values-fit-the-wire-field", m.site(), ok, f"{c.name} over [{vmin}, {vmax}]: {why}", key=f"fit|{c.name}")
         step = res if (isinstance(res, float) and not float(res).is_integer()) else 1
-        for side, iv in (("above", None if vmax == INF else Iv(vmax + step, INF, False)), ("below", None if vmin == -INF else Iv(-INF, vmin - step, False))):
+        sides = [("above", None if vmax == INF else Iv(vmax + step, INF, False)), ("below", None if vmin == -INF else Iv(-INF, vmin - step, False))]
+        if step == 1:
+            # a fraction beyond an integer bound is out of range as well - an encoder that truncates with int() before it
+            # compares would clamp 255.9 to 255 instead of refusing it
+            # (only where a float can hold a fraction next to the bound: below 2**52)
+            if vmax != INF and abs(vmax) < 2 ** 52:
+                sides.append(("just above (fraction)", Iv(vmax + 0.25, vmax + 0.75, False)))
+            if vmin != -INF and abs(vmin) < 2 ** 52:
+                sides.append(("just below (fraction)", Iv(vmin - 0.75, vmin - 0.25, False)))
+        for side, iv in sides:
             if iv is None:
                 chk.ob("out-of-range-values-are-refused", m.site(), True, f"{c.name}: no value {side} the declared range exists", key=f"refuse|{c.name}|{side}")
                 continue
@@ -254,7 +263,11 @@ def float16(chk: Check, repo: Repo, c, m, vmin, vmax, plen) -> None:
     body_txt = [ast.unparse(x) for x in w.body]
     halves = any(bt in (f"{var} /= 2", f"{var} = {var} / 2") for bt in body_txt)
     evar = next((x.target.id for x in w.body if isinstance(x, ast.AugAssign) and isinstance(x.op, ast.Add) and isinstance(x.target, ast.Name) and ast.unparse(x.value) == "1"), None)
+    # the rounded mantissa and the mask that cuts it to the field: `round(v) & K`, or a local holding round(v) that is
+    # masked later (`m = round(v) ... m &= K`)
+    rounded = {n.targets[0].id for n in walk_local(m.node) if isinstance(n, ast.Assign) and len(n.targets) == 1 and isinstance(n.targets[0], ast.Name) and isinstance(n.value, ast.Call) and call_name(n.value) == "round" and n.value.args and ast.unparse(n.value.args[0]) == var}
     masks = [n for n in walk_local(m.node) if isinstance(n, ast.BinOp) and isinstance(n.op, ast.BitAnd) and isinstance(n.left, ast.Call) and call_name(n.left) == "round" and ast.unparse(n.left.args[0]) == var]
+    masks += [ast.BinOp(left=n.target, op=ast.BitAnd(), right=n.value) for n in walk_local(m.node) if isinstance(n, ast.AugAssign) and isinstance(n.op, ast.BitAnd) and isinstance(n.target, ast.Name) and n.target.id in rounded]
     shifts = [n for n in walk_local(m.node) if isinstance(n, ast.BinOp) and isinstance(n.op, ast.LShift) and isinstance(n.left, ast.Name) and n.left.id == evar]
     if not (isinstance(lo, (int, float)) and isinstance(hi, (int, float)) and halves and evar and len(masks) == 1 and len(shifts) == 1):
         raise AnalysisError(f"{c.name}.to_knx: 16-bit float encoder constants not recognised")
@@ -270,6 +283,29 @@ def float16(chk: Check, repo: Repo, c, m, vmin, vmax, plen) -> None:
     sign = any(isinstance(n, ast.If) and ast.unparse(n.test) == f"{var} < 0" and any(isinstance(x, ast.AugAssign) and isinstance(x.op, ast.BitOr) and repo.fold(x.value, m.module, c) == 0x80 for x in n.body) for n in walk_local(m.node))
     fits = sign and -(1 << mbits) <= r_lo and r_hi <= (1 << mbits) - 1 and mask == (1 << mbits) - 1
     chk.ob("mantissa-fits-its-field-after-rounding", m.site(w), fits, f"{c.name}: the search loop exits with {lo} {'<=' if isinstance(op_lo, ast.LtE) else '<'} {var} {'<=' if isinstance(op_hi, ast.LtE) else '<'} {hi}; round({var}) can reach {r_lo}..{r_hi}; the mantissa field `& {mask:#x}` plus the sign bit holds {-(1 << mbits)}..{(1 << mbits) - 1}" + ("" if fits else " — a rounded mantissa outside the field is masked to a different value (e.g. 2048 -> 0)"), key=f"mantissa|{c.name}" if not fits else f"mantissa|{m.qualname}")
+    # rounding the mantissa at the declared limits must not leave the declared range: the decoder of the same class
+    # refuses a payload beyond it (and 0x7FFF is the code for invalid data).  Arithmetic on the extracted constants; where
+    # plain rounding would overshoot, the encoder has to pull the mantissa back (a statement comparing the scaled mantissa
+    # with the class limit and stepping the mantissa).
+    def encoded(v: float) -> float:
+        x, e_ = v * k, 0
+        while not ((lo <= x if isinstance(op_lo, ast.LtE) else lo < x) and (x <= hi if isinstance(op_hi, ast.LtE) else x < hi)):
+            x /= 2
+            e_ += 1
+        return round(x) * (2 ** e_) / k
+    over = [(b, encoded(b)) for b in (vmax, vmin) if (encoded(b) > vmax or encoded(b) < vmin)]
+    pulls = {"max": False, "min": False}
+    for n in walk_local(m.node):
+        if isinstance(n, ast.If) and any(isinstance(x, ast.AugAssign) and isinstance(x.target, ast.Name) and x.target.id in rounded for x in n.body):
+            t_ = ast.unparse(n.test)
+            if "cls.value_max" in t_ and ("<<" in t_ or "**" in t_):
+                pulls["max"] = True
+            if "cls.value_min" in t_ and ("<<" in t_ or "**" in t_):
+                pulls["min"] = True
+    need_max = any(b == vmax for b, _ in over)
+    need_min = any(b == vmin for b, _ in over)
+    ok_pull = (not need_max or pulls["max"]) and (not need_min or pulls["min"])
+    chk.ob("rounding-stays-inside-the-declared-range", m.site(), ok_pull, f"{c.name}: plain rounding at the limits gives {[(b, round(v_, 2)) for b, v_ in over] or 'values inside the range'}" + ("" if not over else ("; the encoder pulls the mantissa back inside" if ok_pull else " - a payload its own decoder refuses (beyond the declared range)")), key=f"round-in-range|{c.name}")
     garg = ast.unparse(guard[0].test)
     units_ok = garg in ("not cls._test_boundaries(value)",)
     chk.ob("in-range-values-are-accepted", m.site(), units_ok, f"{c.name}: range guard `{garg}` is applied to the value itself (declared units)", key=f"accept|{c.name}")
